@@ -52,6 +52,10 @@ func (p *parser) Advance(sym string) *token {
 }
 
 func (p *parser) Statement() *token {
+	if p.Token.Symbol == ";" {
+		p.Next()
+		return nil
+	}
 	tok := p.Expression(0)
 	if tok == nil {
 		return nil
@@ -94,6 +98,9 @@ func (p *parser) doExpression(rbp int) *token {
 	t := p.Token
 	p.Next()
 	left := getSymbol(t).Nud(p, t)
+	if left == nil {
+		return nil
+	}
 	for rbp < getSymbol(p.Token).Lbp && !slices.Contains(p.mask, p.Token.Symbol) {
 		t = p.Token
 		p.Next()
